@@ -369,7 +369,8 @@ class Program:
             l, r = ev(expr.left), ev(expr.right)
             ops = {ast.Add: lambda a, b: a + b, ast.Sub: lambda a, b: a - b, ast.Mult: lambda a, b: a * b,
                    ast.Pow: lambda a, b: a ** b, ast.LShift: lambda a, b: a << b, ast.BitOr: lambda a, b: a | b,
-                   ast.FloorDiv: lambda a, b: a // b}
+                   ast.FloorDiv: lambda a, b: a // b, ast.Mod: lambda a, b: a % b,
+                   ast.BitAnd: lambda a, b: a & b, ast.RShift: lambda a, b: a >> b, ast.BitXor: lambda a, b: a ^ b}
             f = ops.get(type(expr.op))
             if f is None:
                 raise KeyError("op")
